@@ -142,6 +142,11 @@ pub proof fn axiom_slice_len(s: &[Rc<BDD>])
     ensures s@.len() <= 0x0fff_ffff_ffff_ffff
 {}
 
+#[verifier::external_body]
+pub proof fn axiom_vec_len(s: &Vec<Rc<BDD>>)
+    ensures s@.len() <= 0x0fff_ffff_ffff_ffff
+{}
+
 /// the comparator argument of cmp_count_compare behaves as "at least k of l" / "at most k of l"
 pub open spec fn cmp_is_aln<F: Fn(&BDDEnv, &[Rc<BDD>], i64) -> Rc<BDD>>(cmp: F) -> bool {
     forall|e: &BDDEnv, l: &[Rc<BDD>], k: i64, res: Rc<BDD>| #[trigger] cmp.ensures((e, l, k), res)
@@ -336,4 +341,263 @@ pub proof fn lemma_sat_child(b: BDD, lo: int)
 pub open spec fn is_fp_trace<F: Fn(Rc<BDD>) -> Rc<BDD>>(t: F, a: Rc<BDD>, tr: Seq<Rc<BDD>>, r: Rc<BDD>) -> bool {
     tr.len() > 0 && tr[0] == a && tr[tr.len() - 1] == r
     && forall|i: int| 0 <= i < tr.len() - 1 ==> t.ensures((#[trigger] tr[i],), tr[i + 1]) && *tr[i + 1] != *tr[i]
+}
+
+// ================================================================ formula language (C01, C05, C06, C09)
+
+pub type Rho = Map<Sym, BDD>;
+
+/// number of nodes of a syntax tree (termination measure of the evaluator)
+pub open spec fn ast_size(f: SymbolicBDD) -> nat
+    decreases f, 0nat, 0nat
+{
+    match f {
+        SymbolicBDD::False | SymbolicBDD::True | SymbolicBDD::Var(_) | SymbolicBDD::Subtree(_) | SymbolicBDD::Reference(_) => 1,
+        SymbolicBDD::Not(b) => 1 + ast_size(*b),
+        SymbolicBDD::Quantifier(_, _, b) => 1 + ast_size(*b),
+        SymbolicBDD::CountableConst(_, bs, _) => 1 + list_size(bs@, bs@.len()),
+        SymbolicBDD::CountableVariable(_, l, r) => 1 + list_size(l@, l@.len()) + list_size(r@, r@.len()),
+        SymbolicBDD::FixedPoint(_, _, t) => 1 + ast_size(*t),
+        SymbolicBDD::Ite(c, t, e) => 1 + ast_size(*c) + ast_size(*t) + ast_size(*e),
+        SymbolicBDD::BinaryOp(_, l, r) => 1 + ast_size(*l) + ast_size(*r),
+    }
+}
+/// total size of the first k elements of bs
+pub open spec fn list_size(bs: Seq<SymbolicBDD>, k: nat) -> nat
+    decreases bs, 1nat, k
+{
+    if k == 0 || k > bs.len() { 0 } else { ast_size(bs[k - 1]) + list_size(bs, (k - 1) as nat) }
+}
+
+/// no `{name}` reference nodes
+pub open spec fn ref_free(f: SymbolicBDD) -> bool
+    decreases f
+{
+    match f {
+        SymbolicBDD::Reference(_) => false,
+        SymbolicBDD::False | SymbolicBDD::True | SymbolicBDD::Var(_) | SymbolicBDD::Subtree(_) => true,
+        SymbolicBDD::Not(b) => ref_free(*b),
+        SymbolicBDD::Quantifier(_, _, b) => ref_free(*b),
+        SymbolicBDD::CountableConst(_, bs, _) => forall|i: int| 0 <= i < bs@.len() ==> ref_free(#[trigger] bs@[i]),
+        SymbolicBDD::CountableVariable(_, l, r) => (forall|i: int| 0 <= i < l@.len() ==> ref_free(#[trigger] l@[i]))
+            && (forall|i: int| 0 <= i < r@.len() ==> ref_free(#[trigger] r@[i])),
+        SymbolicBDD::FixedPoint(_, _, t) => ref_free(*t),
+        SymbolicBDD::Ite(c, t, e) => ref_free(*c) && ref_free(*t) && ref_free(*e),
+        SymbolicBDD::BinaryOp(_, l, r) => ref_free(*l) && ref_free(*r),
+    }
+}
+
+/// every embedded diagram (Subtree node) is an ROBDD; `plain` additionally: there is none
+pub open spec fn subtrees_ok(f: SymbolicBDD, plain: bool) -> bool
+    decreases f
+{
+    match f {
+        SymbolicBDD::Subtree(t) => !plain && robdd(*t, 0),
+        SymbolicBDD::False | SymbolicBDD::True | SymbolicBDD::Var(_) | SymbolicBDD::Reference(_) => true,
+        SymbolicBDD::Not(b) => subtrees_ok(*b, plain),
+        SymbolicBDD::Quantifier(_, _, b) => subtrees_ok(*b, plain),
+        SymbolicBDD::CountableConst(_, bs, _) => forall|i: int| 0 <= i < bs@.len() ==> subtrees_ok(#[trigger] bs@[i], plain),
+        SymbolicBDD::CountableVariable(_, l, r) => (forall|i: int| 0 <= i < l@.len() ==> subtrees_ok(#[trigger] l@[i], plain))
+            && (forall|i: int| 0 <= i < r@.len() ==> subtrees_ok(#[trigger] r@[i], plain)),
+        SymbolicBDD::FixedPoint(_, _, t) => subtrees_ok(*t, plain),
+        SymbolicBDD::Ite(c, t, e) => subtrees_ok(*c, plain) && subtrees_ok(*t, plain) && subtrees_ok(*e, plain),
+        SymbolicBDD::BinaryOp(_, l, r) => subtrees_ok(*l, plain) && subtrees_ok(*r, plain),
+    }
+}
+
+/// v has an occurrence in f that is not enclosed by a quantifier / fixed-point binder of v   (C09)
+pub open spec fn free_in(f: SymbolicBDD, v: Sym) -> bool
+    decreases f
+{
+    match f {
+        SymbolicBDD::Var(w) => w == v,
+        SymbolicBDD::False | SymbolicBDD::True | SymbolicBDD::Subtree(_) | SymbolicBDD::Reference(_) => false,
+        SymbolicBDD::Not(b) => free_in(*b, v),
+        SymbolicBDD::Quantifier(_, vs, b) => !sym_in(vs@, v) && free_in(*b, v),
+        SymbolicBDD::CountableConst(_, bs, _) => exists|i: int| 0 <= i < bs@.len() && free_in(#[trigger] bs@[i], v),
+        SymbolicBDD::CountableVariable(_, l, r) => (exists|i: int| 0 <= i < l@.len() && free_in(#[trigger] l@[i], v))
+            || (exists|i: int| 0 <= i < r@.len() && free_in(#[trigger] r@[i], v)),
+        SymbolicBDD::FixedPoint(x, _, t) => x != v && free_in(*t, v),
+        SymbolicBDD::Ite(c, t, e) => free_in(*c, v) || free_in(*t, v) || free_in(*e, v),
+        SymbolicBDD::BinaryOp(_, l, r) => free_in(*l, v) || free_in(*r, v),
+    }
+}
+
+/// g is f with every free occurrence of the name x replaced by rep; an inner quantifier list containing x
+/// or an inner fixed point on x shadows it (C06: "X is lexically scoped")
+pub open spec fn is_subst(f: SymbolicBDD, x: Sym, rep: SymbolicBDD, g: SymbolicBDD) -> bool
+    decreases f
+{
+    match f {
+        SymbolicBDD::Var(v) => if v == x { g == rep } else { g == f },
+        SymbolicBDD::False | SymbolicBDD::True | SymbolicBDD::Subtree(_) => g == f,
+        SymbolicBDD::Reference(_) => true,
+        SymbolicBDD::Not(b) => g matches SymbolicBDD::Not(b2) && is_subst(*b, x, rep, *b2),
+        SymbolicBDD::Quantifier(q, vs, b) => if sym_in(vs@, x) { g == f } else {
+            g matches SymbolicBDD::Quantifier(q2, vs2, b2) && q2 == q && vs2@ == vs@ && is_subst(*b, x, rep, *b2) },
+        SymbolicBDD::FixedPoint(v, i, t) => if v == x { g == f } else {
+            g matches SymbolicBDD::FixedPoint(v2, i2, t2) && v2 == v && i2 == i && is_subst(*t, x, rep, *t2) },
+        SymbolicBDD::Ite(a, b, c) => g matches SymbolicBDD::Ite(a2, b2, c2)
+            && is_subst(*a, x, rep, *a2) && is_subst(*b, x, rep, *b2) && is_subst(*c, x, rep, *c2),
+        SymbolicBDD::BinaryOp(op, l, r) => g matches SymbolicBDD::BinaryOp(op2, l2, r2) && op2 == op
+            && is_subst(*l, x, rep, *l2) && is_subst(*r, x, rep, *r2),
+        SymbolicBDD::CountableConst(op, bs, n) => g matches SymbolicBDD::CountableConst(op2, cs, n2) && op2 == op && n2 == n
+            && cs@.len() == bs@.len() && forall|i: int| 0 <= i < bs@.len() ==> is_subst(#[trigger] bs@[i], x, rep, cs@[i]),
+        SymbolicBDD::CountableVariable(op, l, r) => g matches SymbolicBDD::CountableVariable(op2, l2, r2) && op2 == op
+            && l2@.len() == l@.len() && (forall|i: int| 0 <= i < l@.len() ==> is_subst(#[trigger] l@[i], x, rep, l2@[i]))
+            && r2@.len() == r@.len() && (forall|i: int| 0 <= i < r@.len() ==> is_subst(#[trigger] r@[i], x, rep, r2@[i])),
+    }
+}
+
+// ---------------------------------------------------------------- documented meaning of a formula (README "Syntax")
+
+pub open spec fn cmp_op(op: CountableOperator, c: int, n: int) -> bool {
+    match op {
+        CountableOperator::AtMost => c <= n,
+        CountableOperator::LessThan => c < n,
+        CountableOperator::AtLeast => c >= n,
+        CountableOperator::MoreThan => c > n,
+        CountableOperator::Exactly => c == n,
+    }
+}
+
+pub open spec fn bin_op(op: BinaryOperator, l: bool, r: bool) -> bool {
+    match op {
+        BinaryOperator::And => l && r,
+        BinaryOperator::Or => l || r,
+        BinaryOperator::Xor => l != r,
+        BinaryOperator::Nor => !(l || r),
+        BinaryOperator::Nand => !(l && r),
+        BinaryOperator::Implies => l ==> r,
+        BinaryOperator::ImpliesInv => r ==> l,
+        BinaryOperator::Iff => l == r,
+    }
+}
+
+pub open spec fn leaf(b: bool) -> BDD { if b { BDD::True } else { BDD::False } }
+
+/// truth value of formula f under assignment a; rho gives the current value (a diagram) of the fixed-point
+/// names in scope.  Quantified names and inner fixed-point names shadow rho.
+pub open spec fn sem(f: SymbolicBDD, a: Asg, rho: Rho) -> bool
+    decreases f, 0nat, 0nat
+{
+    match f {
+        SymbolicBDD::False => false,
+        SymbolicBDD::True => true,
+        SymbolicBDD::Var(v) => if rho.dom().contains(v) { eval(rho[v], a) } else { a(v) },
+        SymbolicBDD::Subtree(t) => eval(*t, a),
+        SymbolicBDD::Reference(_) => false,
+        SymbolicBDD::Not(b) => !sem(*b, a, rho),
+        SymbolicBDD::Quantifier(q, vs, b) => semq(q, vs@, *b, a, rho.remove_keys(vs@.to_set())),
+        SymbolicBDD::CountableConst(op, bs, n) => cmp_op(op, scount(bs@, 0, a, rho), n as int),
+        SymbolicBDD::CountableVariable(op, l, r) => cmp_op(op, scount(l@, 0, a, rho), scount(r@, 0, a, rho)),
+        SymbolicBDD::Ite(c, t, e) => if sem(*c, a, rho) { sem(*t, a, rho) } else { sem(*e, a, rho) },
+        SymbolicBDD::BinaryOp(op, l, r) => bin_op(op, sem(*l, a, rho), sem(*r, a, rho)),
+        SymbolicBDD::FixedPoint(x, i, t) =>
+            if exists|y: BDD| fp_result(x, i, *t, rho, y) { eval(choose|y: BDD| fp_result(x, i, *t, rho, y), a) } else { false },
+    }
+}
+
+/// exists / forall over the list vs, outermost variable first
+pub open spec fn semq(q: QuantifierType, vs: Seq<Sym>, b: SymbolicBDD, a: Asg, rho: Rho) -> bool
+    decreases b, 1nat, vs.len()
+{
+    if vs.len() == 0 { sem(b, a, rho) } else {
+        let r1 = semq(q, vs.subrange(1, vs.len() as int), b, upd(a, vs[0], true), rho);
+        let r2 = semq(q, vs.subrange(1, vs.len() as int), b, upd(a, vs[0], false), rho);
+        if q == QuantifierType::Exists { r1 || r2 } else { r1 && r2 }
+    }
+}
+
+/// number of formulas among bs[i..] that are true
+pub open spec fn scount(bs: Seq<SymbolicBDD>, i: nat, a: Asg, rho: Rho) -> int
+    decreases bs, 1nat, bs.len() - i
+{
+    if i >= bs.len() { 0 } else { (if sem(bs[i as int], a, rho) { 1int } else { 0int }) + scount(bs, i + 1, a, rho) }
+}
+
+/// q is the ROBDD of  T[X := p]
+pub open spec fn fp_step(x: Sym, t: SymbolicBDD, rho: Rho, p: BDD, q: BDD) -> bool
+    decreases t, 1nat, 0nat
+{
+    robdd(q, 0) && forall|a: Asg| #[trigger] eval(q, a) == sem(t, a, rho.insert(x, p))
+}
+
+/// tr = init, T[X:=init], T[X:=T[X:=init]], ..  every step changing the value
+pub open spec fn fp_trace(x: Sym, i: bool, t: SymbolicBDD, rho: Rho, tr: Seq<BDD>) -> bool
+    decreases t, 2nat, 0nat
+{
+    tr.len() > 0 && tr[0] == leaf(i)
+    && forall|k: int| 0 <= k < tr.len() - 1 ==> fp_step(x, t, rho, #[trigger] tr[k], tr[k + 1]) && tr[k + 1] != tr[k]
+}
+
+/// y is the first iterate that T maps to itself
+pub open spec fn fp_result(x: Sym, i: bool, t: SymbolicBDD, rho: Rho, y: BDD) -> bool
+    decreases t, 3nat, 0nat
+{
+    exists|tr: Seq<BDD>| #[trigger] fp_trace(x, i, t, rho, tr) && tr[tr.len() - 1] == y && fp_step(x, t, rho, y, y)
+}
+
+pub proof fn lemma_list_size_elem(bs: Seq<SymbolicBDD>, k: nat, i: int)
+    requires 0 <= i < k <= bs.len()
+    ensures ast_size(bs[i]) <= list_size(bs, k)
+    decreases k
+{
+    if i < k - 1 { lemma_list_size_elem(bs, (k - 1) as nat, i); }
+}
+
+/// every direct child of f is strictly smaller than f (termination of the evaluator)
+pub proof fn lemma_children_smaller(f: SymbolicBDD)
+    ensures
+        f matches SymbolicBDD::CountableConst(_, bs, _) ==> forall|i: int| 0 <= i < bs@.len() ==> ast_size(#[trigger] bs@[i]) < ast_size(f),
+        f matches SymbolicBDD::CountableVariable(_, l, r) ==>
+            (forall|i: int| 0 <= i < l@.len() ==> ast_size(#[trigger] l@[i]) < ast_size(f))
+            && (forall|i: int| 0 <= i < r@.len() ==> ast_size(#[trigger] r@[i]) < ast_size(f)),
+{
+    match f {
+        SymbolicBDD::CountableConst(_, bs, _) => {
+            assert forall|i: int| 0 <= i < bs@.len() implies ast_size(#[trigger] bs@[i]) < ast_size(f) by {
+                lemma_list_size_elem(bs@, bs@.len(), i);
+            }
+        }
+        SymbolicBDD::CountableVariable(_, l, r) => {
+            assert forall|i: int| 0 <= i < l@.len() implies ast_size(#[trigger] l@[i]) < ast_size(f) by {
+                lemma_list_size_elem(l@, l@.len(), i);
+            }
+            assert forall|i: int| 0 <= i < r@.len() implies ast_size(#[trigger] r@[i]) < ast_size(f) by {
+                lemma_list_size_elem(r@, r@.len(), i);
+            }
+        }
+        _ => {}
+    }
+}
+
+/// the diagrams ds denote the formulas bs one by one  ==>  the two notions of "number of true operands" agree
+pub proof fn lemma_count_bridge(ds: Seq<Rc<BDD>>, bs: Seq<SymbolicBDD>, i: nat, a: Asg, rho: Rho)
+    requires
+        ds.len() == bs.len(), i <= bs.len(),
+        forall|k: int| 0 <= k < bs.len() ==> eval(*#[trigger] ds[k], a) == sem(bs[k], a, rho),
+    ensures count(ds.subrange(i as int, ds.len() as int), a) == scount(bs, i, a, rho)
+    decreases bs.len() - i
+{
+    let d = ds.subrange(i as int, ds.len() as int);
+    if i < bs.len() {
+        lemma_count_bridge(ds, bs, i + 1, a, rho);
+        assert(d.subrange(1, d.len() as int) =~= ds.subrange(i as int + 1, ds.len() as int));
+        assert(d[0] == ds[i as int]);
+    }
+}
+
+/// a diagram rb that denotes the body b turns the library's exq/allq into the language's quantifier meaning
+pub proof fn lemma_semq_exq(vs: Seq<Sym>, b: SymbolicBDD, rb: BDD, a: Asg, rho: Rho)
+    requires forall|a2: Asg| #[trigger] eval(rb, a2) == sem(b, a2, rho)
+    ensures
+        exq(vs, rb, a) == semq(QuantifierType::Exists, vs, b, a, rho),
+        allq(vs, rb, a) == semq(QuantifierType::Forall, vs, b, a, rho),
+    decreases vs.len()
+{
+    if vs.len() > 0 {
+        lemma_semq_exq(vs.subrange(1, vs.len() as int), b, rb, upd(a, vs[0], true), rho);
+        lemma_semq_exq(vs.subrange(1, vs.len() as int), b, rb, upd(a, vs[0], false), rho);
+    }
 }
